@@ -26,7 +26,7 @@ CLAIMS = {
          "history with every per-close strategy choice, all data of every variant are pairwise disjoint (induction: layout "
          "invariant LInv + gap invariant GInv); C01_no_strategy_panic; C01_no_shared_byte (byte form on the built definition). Model tied to /repo by channel L on every run.", "4 C01", L_NOTE,
          "Lean 4 theorem (invariant by induction over request histories) + model/implementation correspondence"),
- "C02": ("Theorems C02_aligned, C02_contained, C02_record_align, C02_order(_strict), C02_address_aligned_contained (absolute addresses under an aligned base), C02_capacity_tight (the capacity is attained by some datum) over the same model (LInv gives alignment and "
+ "C02": ("Theorems C02_aligned, C02_contained, C02_record_align, C02_order(_strict), C02_address_aligned_contained (absolute addresses under an aligned base), C02_capacity_tight (the capacity is attained by some datum), C02_sizes_sum_le_capacity (the sizes of a variant's data sum to at most the capacity) over the same model (LInv gives alignment and "
          "address order incl. zero-size data; capacity = fold over variants; record alignment = max of powers of two).", "4 C02", L_NOTE,
          "Lean 4 theorem (invariant) + correspondence"),
  "C03": ("Theorem C03_offset_stable: every datum of a closed variant keeps its whole description in every later state (frame "
